@@ -39,8 +39,14 @@ def run(rep):
         raise Machinery("enumeration incomplete: group-count family has %d patterns" % len(gcpats))
     if not hist or not grid or len(cfgs) < 30 or len(smpats) < 50:
         raise Machinery("enumeration incomplete: %d cfg, %d patterns" % (len(cfgs), len(smpats)))
+    zaspace = [r for r in res.records if r.get("kind") == "zaspace"]
+    zapats = sorted((r for r in res.records if r.get("kind") == "zapat"), key=lambda r: json.dumps(r["ast"], sort_keys=True))
+    if len(zaspace) != 1 or not zapats or not zaspace[0]["ops"] or not zaspace[0]["subjects"] or not zaspace[0]["flags"]:
+        raise Machinery("enumeration incomplete: assertion family has %d patterns" % len(zapats))
+    if {tuple(r["cls"]) for r in zapats} != {tuple(c) for c in zaspace[0]["classes"]}:
+        raise Machinery("enumeration incomplete: assertion family classes")
     hist, grid = hist[0], grid[0]
-    histories(rep, hist, cfgs)
+    histories(rep, hist, cfgs, zaspace[0], zapats)
     string_methods(rep, grid, list(smpats.values()), sorted(gcpats.values(), key=lambda r: (r["gn"], r["shape"])))
     rep.exhaustive = True
     rep.notes["rule"] = ("histories: every step of every history is one judged observation [result, lastIndex]; "
@@ -56,7 +62,7 @@ def show_hist(c, upto=None):
     return "/%s/%s on %r: %s" % (wire.from_units(c["src"]), c["flags"], wire.from_units(c["s"]), " ; ".join(ops))
 
 
-def histories(rep, hist, cfgs):
+def histories(rep, hist, cfgs, za, zapats):
     names, L = hist["ops"], hist["len"]
     nops = len(names)
     cases = []
@@ -71,9 +77,22 @@ def histories(rep, hist, cfgs):
                 add(cfg, si, ops, True)
             for ops in itertools.product(range(nops), repeat=2):          # integer-valued lastIndex held as a Python float
                 add(cfg, si, ops, False)
+    ncat = len(cases)
+    # assertion family: the spec gives the patterns (ast + source), the sub-alphabet, the flag sets and the subjects
+    zaops = sorted(k - 1 for k in za["ops"])
+    for zp in zapats:
+        for fl in sorted(za["flags"]):
+            flags = next(c["flags"] for c in cfgs.values() if c["fl"] == fl)
+            for si, s in enumerate(za["subjects"]):
+                for ops in itertools.product(zaops, repeat=za["len"]):
+                    cases.append({"id": len(cases), "ast": zp["ast"], "fl": fl, "src": zp["src"], "flags": flags, "s": s, "names": names,
+                                  "ops": list(ops), "vals": za["assign"][si], "intrep": True})
+    rep.spaces.append({"space": "assertion family: all histories of length %d over %s x %d patterns (zero-width assertions before / after the consumed text, "
+                                "composites) x %d flag sets x %d subjects" % (za["len"], [names[k] for k in zaops], len(zapats), len(za["flags"]), len(za["subjects"])),
+                       "histories": len(cases) - ncat, "classes": sorted(" ".join(x for x in c if x) for c in za["classes"]), "complete": True})
     nexh = len(cases)
     rep.spaces.append({"space": "all histories of length %d over %d operations x %d (pattern, flags) x %d subjects (+ length 2 with float representation)"
-                       % (L, nops, len(cfgs), len(hist["subjects"])), "histories": nexh, "complete": True})
+                       % (L, nops, len(cfgs), len(hist["subjects"])), "histories": ncat, "complete": True})
     if rep.tier == "thorough":
         rnd = random.Random(rep.seed)
         cl = list(cfgs.values())
@@ -94,7 +113,10 @@ def histories(rep, hist, cfgs):
         if "setup" in r:
             rep.mismatch(show_hist(c, -1), {"expected": "a RegExp", "actual": r["setup"], "case": c}, dev="")
             continue
-        recs.append({"id": r["id"], "p": c["p"], "fl": c["fl"], "s": c["si"], "ops": [k + 1 for k in c["ops"]], "obs": r["obs"]})
+        if "ast" in c:
+            recs.append({"id": r["id"], "ast": c["ast"], "fl": c["fl"], "subj": c["s"], "ops": [k + 1 for k in c["ops"]], "obs": r["obs"]})
+        else:
+            recs.append({"id": r["id"], "p": c["p"], "fl": c["fl"], "s": c["si"], "ops": [k + 1 for k in c["ops"]], "obs": r["obs"]})
     t0, c0 = time.time(), cpu()
     verdicts, st, tr, wall = tlc.judge(rep.pid, "C20", recs, TRACE_CFG, tag="trace", timeout=14400)
     rep.notes["hist_judge_wall_cpu_s"] = [round(time.time() - t0, 1), round(cpu() - c0, 1)]
